@@ -144,7 +144,7 @@ def build_foreign(step, ctx, run_seed):
         fn = r.choice([b'', b'a.txt', 'résumé.txt'.encode('utf-8'), b'_CONSOLE', b'x' * 255])
         if any(b > 127 for b in fn):
             ctx.probe('filename_non_ascii')
-        return 11, renc.build_literal(r.choice([b'b', b't', b'u']), fn, r.choice([0, 1, 1_400_000_000, 2 ** 32 - 1]), rnd(n) if r.random() < 0.5 else b'text ' * (n // 5))
+        return 11, renc.build_literal(r.choice([b'b', b'b', b't', b'u', b'l', b'1', b'm', b'\xe9', b'\x80', b'\xff', b'\x00']), fn, r.choice([0, 1, 1_400_000_000, 2 ** 32 - 1]), rnd(n) if r.random() < 0.5 else b'text ' * (n // 5))
     if kind in ('sig',):
         body, alg, secret = make_ref_key('ed25519', 1_500_000_000, b'', run_seed, label='c08sig')
         pub = rkeys.parse_pub(body)
